@@ -690,6 +690,121 @@ func genConcOp(g *hx.Rng, gi, k int, own []int) []string {
 	return []string{"bv", "A"}
 }
 
+// bigPushPolling: a whole-list push of a long source (a foreign list, or the list itself) while observers poll
+// Len() / Front / Back / Values of the target back to back. The push is ONE operation: every observation is the list
+// before it or the list after it — Len is n0 or n0+N, never in between; Values() has one of the two lengths and the
+// block is complete; Front/Back are the old ones or the block's. Nothing here depends on timing (a slow machine only
+// makes fewer observations).
+func bigPushPolling(r *hx.Run, round int) {
+	mode := "big-push"
+	const n0, N = 3, 20000
+	front := round%2 == 1
+	self := round%3 == 2
+	t := newTS()
+	for v := 1; v <= n0; v++ {
+		t.PushBack(v)
+	}
+	var src ds.List[int] = t
+	total, first, last := n0+n0, 1, n0 // self-push doubles the list
+	if !self {
+		src = ds.NewList[int](round%4 < 2)
+		for v := 1; v <= N; v++ {
+			src.PushBack(100 + v)
+		}
+		total, first, last = n0+N, 101, 100+N
+	}
+	sig := map[string]string{"part": "linearizable", "mode": mode, "push": map[bool]string{false: "pbl", true: "pfl"}[front],
+		"source": map[bool]string{false: "other", true: "self"}[self]}
+	var stop atomic.Bool
+	var wg sync.WaitGroup
+	var obs atomic.Int64
+	var failed atomic.Bool
+	bad := func(what, detail string) {
+		if failed.CompareAndSwap(false, true) {
+			m := map[string]string{"what": what}
+			for k, v := range sig {
+				m[k] = v
+			}
+			r.Fail("thread-safe-list-linearizable", mode+": "+detail+" — the whole-list push did not take effect as one operation", m)
+		}
+	}
+	for g := 0; g < 3; g++ {
+		wg.Add(1)
+		go func() {
+			defer wg.Done()
+			for k := 0; !stop.Load() || k < 3; k++ {
+				if p := hx.Safely(func() {
+					switch (k + g) % 3 {
+					case 0:
+						if n := t.Len(); n != n0 && n != total {
+							bad("len", fmt.Sprintf("Len()=%d observed, the list has %d elements before and %d after the push", n, n0, total))
+						}
+					case 1:
+						f, b := t.Front(), t.Back()
+						if f == nil || b == nil {
+							bad("ends", "Front()/Back() returned nil on a non-empty list")
+
+							return
+						}
+						fv, bv := f.Value(), b.Value()
+						okF := fv == 1 || (front && fv == first)
+						okB := bv == n0 || (!front && bv == last)
+						if !okF || !okB {
+							bad("ends", fmt.Sprintf("Front=%d Back=%d observed; before the push 1/%d, after it %d/%d", fv, bv, n0,
+								map[bool]int{true: first, false: 1}[front], map[bool]int{true: n0, false: last}[front]))
+						}
+					default:
+						if k%8 != 2 {
+							return // Values() of 20000 elements is slow; mostly poll the cheap observers
+						}
+						if n := len(t.Values()); n != n0 && n != total {
+							bad("values", fmt.Sprintf("Values() has %d entries, the list has %d before and %d after the push", n, n0, total))
+						}
+					}
+					obs.Add(1)
+				}); p != "" {
+					bad("panic", "an observer panicked: "+p)
+
+					return
+				}
+			}
+		}()
+	}
+	done := make(chan string, 1)
+	go func() {
+		done <- hx.Safely(func() {
+			if front {
+				t.PushFrontList(src)
+			} else {
+				t.PushBackList(src)
+			}
+		})
+	}()
+	select {
+	case p := <-done:
+		if p != "" {
+			bad("panic", "the push panicked: "+p)
+		}
+	case <-time.After(60 * time.Second):
+		bad("deadlock", "the push did not return within 60s")
+	}
+	stop.Store(true)
+	fin := make(chan struct{})
+	go func() { wg.Wait(); close(fin) }()
+	select {
+	case <-fin:
+	case <-time.After(60 * time.Second):
+		bad("deadlock", "observers still blocked 60s after the push returned")
+
+		return
+	}
+	if n := t.Len(); n != total && !failed.Load() {
+		bad("len", fmt.Sprintf("Len()=%d after the push, want %d", n, total))
+	}
+	r.CountN("lin:big-push-observations", int(obs.Load()))
+	r.Count("lin:big-push-round")
+}
+
 // concurrentHistories: the forced whole-list-push schedules (every combination of push, source flavour, queued
 // reader, queued writer) and the stress rounds.
 func concurrentHistories(r *hx.Run) {
@@ -726,6 +841,9 @@ func concurrentHistories(r *hx.Run) {
 				}
 			}
 		}
+	}
+	for i := 0; i < 12*reps; i++ {
+		bigPushPolling(r, i)
 	}
 	for i := 0; i < rounds; i++ {
 		_, seed := r.Rng.Fork()
